@@ -11,7 +11,9 @@ import (
 	"deps.dev/util/semver"
 )
 
-func c07PK(name string) resolve.PackageKey { return resolve.PackageKey{System: resolve.Maven, Name: name} }
+func c07PK(name string) resolve.PackageKey {
+	return resolve.PackageKey{System: resolve.Maven, Name: name}
+}
 func c07VK(name, ver string) resolve.VersionKey {
 	return resolve.VersionKey{PackageKey: c07PK(name), VersionType: resolve.Concrete, Version: ver}
 }
@@ -168,10 +170,17 @@ func VerifC07Resolve() {
 	// nearest wins: for skeletons with only soft requirements and no exclusions or management, the version
 	// of each artifact is the one demanded by the first declaration in breadth-first order
 	if vParam("allsoft") == 1 {
+		// Reference mediation for soft requirements: breadth-first from the root; the first declaration of an
+		// artifact that is not excluded on its path decides the version; an expanded artifact hands the
+		// exclusions of its path (those of the edge that reached it included) down to its own declarations.
+		type item struct {
+			vk   resolve.VersionKey
+			excl []string
+		}
 		chosen := map[resolve.PackageKey]string{}
-		order := []resolve.VersionKey{root}
+		order := []item{{vk: root}}
 		for qi := 0; qi < len(order); qi++ {
-			reqs, rerr := lc.Requirements(ctx, order[qi])
+			reqs, rerr := lc.Requirements(ctx, order[qi].vk)
 			if rerr != nil {
 				continue
 			}
@@ -182,6 +191,16 @@ func VerifC07Resolve() {
 				if s, ok := rq.Type.GetAttr(dep.Scope); ok && s == "provided" && qi != 0 {
 					continue
 				}
+				excluded := false
+				for _, x := range order[qi].excl {
+					if x == rq.Name {
+						excluded = true
+					}
+				}
+				if excluded {
+					vCover(true, "a declaration excluded on its path")
+					continue
+				}
 				if _, done := chosen[rq.PackageKey]; done {
 					continue
 				}
@@ -189,18 +208,32 @@ func VerifC07Resolve() {
 				vk := resolve.VersionKey{PackageKey: rq.PackageKey, VersionType: resolve.Concrete, Version: rq.Version}
 				if _, verr := lc.Version(ctx, vk); verr == nil {
 					if t, ok := rq.Type.GetAttr(dep.MavenArtifactType); !ok || t != "war" {
-						order = append(order, vk)
+						excl := append([]string(nil), order[qi].excl...)
+						if x, ok := rq.Type.GetAttr(dep.MavenExclusions); ok {
+							excl = append(excl, x)
+						}
+						order = append(order, item{vk: vk, excl: excl})
 					}
 				}
 			}
 		}
 		for _, n := range g.Nodes[1:] {
 			want, ok := chosen[n.Version.PackageKey]
-			vAssert(ok, "every artifact in the graph is demanded by some declaration")
+			vAssert(ok, "every artifact in the graph is demanded by some declaration that is not excluded on its path")
 			if ok && len(n.Errors) == 0 {
 				vCover(true, "nearest-wins checked")
 				vAssert(n.Version.Version == want, "the version of an artifact is the one demanded by the declaration nearest to the root")
 			}
+		}
+		// and the other way round: what the reference reaches with a listed version is in the graph
+		for _, it := range order[1:] {
+			found := false
+			for _, n := range g.Nodes {
+				if n.Version == it.vk {
+					found = true
+				}
+			}
+			vAssert(found, "every artifact reached by a declaration that is not excluded is in the graph")
 		}
 	}
 	// reachability
